@@ -738,6 +738,91 @@ func genServerSkel(repo string) (string, error) {
 		})
 	}
 	fmt.Fprintf(&b, "Definition gen_registry_keys : list (string * string) :=\n  %s.\n\n", coqList(keys))
+	// The registration bracket: in every function that calls upgrade (which
+	// stores the new client in the registry), the top-level statements between
+	// that call -- with the error check that follows it -- and the defer that
+	// calls unmap; each with whether it can leave the function (a return, a
+	// panic, a goto, os.Exit / log.Fatal / runtime.Goexit anywhere inside).
+	var brackets []string
+	for _, fd := range p.allFuncs() {
+		if fd.Body == nil {
+			continue
+		}
+		name := skelFn{recvName(fd), fd.Name.Name}.String()
+		callsUpgrade := func(st ast.Stmt) bool {
+			as, ok := st.(*ast.AssignStmt)
+			if !ok || len(as.Rhs) != 1 {
+				return false
+			}
+			c, ok := as.Rhs[0].(*ast.CallExpr)
+			if !ok {
+				return false
+			}
+			se, ok := c.Fun.(*ast.SelectorExpr)
+			return ok && se.Sel.Name == "upgrade"
+		}
+		mayExit := func(st ast.Stmt) bool {
+			found := false
+			ast.Inspect(st, func(n ast.Node) bool {
+				switch x := n.(type) {
+				case *ast.FuncLit:
+					return false
+				case *ast.ReturnStmt:
+					found = true
+				case *ast.BranchStmt:
+					if x.Tok == token.GOTO {
+						found = true
+					}
+				case *ast.CallExpr:
+					switch p.src(x.Fun) {
+					case "panic", "os.Exit", "runtime.Goexit", "log.Fatal", "log.Fatalf", "log.Fatalln", "log.Panic",
+						"log.Panicf", "log.Panicln":
+						found = true
+					}
+				}
+				return true
+			})
+			return found
+		}
+		firstLine := func(n ast.Node) string {
+			t := p.src(n)
+			if i := strings.Index(t, "\n"); i >= 0 {
+				t = t[:i]
+			}
+			return strings.TrimSpace(t)
+		}
+		list := fd.Body.List
+		for i, st := range list {
+			if !callsUpgrade(st) {
+				continue
+			}
+			j := i + 1
+			// the exit of a failed upgrade (nothing was registered): if err != nil { return err }
+			if j < len(list) {
+				if is, ok := list[j].(*ast.IfStmt); ok && is.Init == nil && is.Else == nil &&
+					p.src(is.Cond) == "err != nil" && len(is.Body.List) == 1 {
+					if _, ok := is.Body.List[0].(*ast.ReturnStmt); ok {
+						j++
+					}
+				}
+			}
+			var between []string
+			closed := false
+			for ; j < len(list); j++ {
+				if ds, ok := list[j].(*ast.DeferStmt); ok && strings.Contains(p.src(ds), ".unmap(") {
+					closed = true
+					break
+				}
+				between = append(between, fmt.Sprintf("(%s, %v)", coqStr(firstLine(list[j])), mayExit(list[j])))
+			}
+			if !closed {
+				between = append(between, fmt.Sprintf("(%s, true)", coqStr("<end of function: no deferred unmap>")))
+			}
+			brackets = append(brackets, fmt.Sprintf("(%s, %s)", coqStr(name), coqList(between)))
+		}
+	}
+	fmt.Fprintf(&b, "Definition gen_register_bracket : list (string * list (string * bool)) :=\n  %s.\n\n",
+		coqList(brackets))
 	fmt.Fprintf(&b, "Definition gen_unmap_callers : list (string * string) :=\n  %s.\n", coqList(unmapCallers))
 	return b.String(), nil
 }
